@@ -1,4 +1,17 @@
 (* C14 - Notifications obey threshold / interval / send-once; every incident is announced.
+
+   READ FIRST - what is claimed for "at most once per send interval".  The clause is claimed PER INCIDENT
+   (C14_interval_respected: two open notifications to one module made for results of the same incident are more than
+   send-interval apart).  Across incidents it is FALSE of the code, and stated so: C14_interval_across_incidents_refuted
+   (ERR, OK, ERR two seconds apart, send-interval 60: both ERR results are notified).  The property's two sentences meet
+   exactly there: "every incident whose status reaches a module's threshold produces at least one open notification ...
+   including the second and later incidents" demands the second notification, the interval clause read across incidents
+   forbids it.  Counting send-interval and send-once within an incident is the reading under which both sentences hold;
+   it is what the code does since the fix of finding F3 (the remembered notify times are forgotten when an incident
+   opens), and before that fix the other sentence failed (C14_announce_refuted_before_fix).  checks/c14.py counts the
+   generated histories that contain such a pair (evidence key
+   histories-with-open-notifications-closer-than-send-interval-across-incidents).
+
    Statements only; proofs are in NotifierProofs.v.  Model: Notifier.v (notifyModule gating of
    core/internal/notifier/coordinator.go after the `fix:` commit for finding F3, with the group-list / cluster-list
    refresh, tied to the source by the probe of checks/c14.py on every run).  Vocabulary as in props/C13.v: histories mix
@@ -34,6 +47,24 @@ Theorem C14_interval_respected :
     clock_at h j2 - clock_at h j1 > nm_interval m * 1000000000.
 Proof. exact interval_respected. Qed.
 Print Assumptions C14_interval_respected.
+
+(* ... and NOT across incidents: notifications closer than send-interval that belong to different incidents of one group
+   (a flapping group is notified at every flap, whatever send-interval says - see the head of this file). *)
+Theorem C14_interval_across_incidents_refuted :
+  exists mods h k i1 i2 m,
+    names_distinct mods /\ In m mods /\ 0 <= nm_interval m * 1000000000 < two63 /\
+    opens h k i1 /\ opens h k i2 /\ (i1 < i2)%nat /\
+    open_call mods h i1 (nm_name m) /\ open_call mods h i2 (nm_name m) /\
+    clock_at h i2 - clock_at h i1 <= nm_interval m * 1000000000.
+Proof. exact interval_across_incidents_refuted. Qed.
+Print Assumptions C14_interval_across_incidents_refuted.
+
+(* One result makes at most one call - open or close - to a module (so "once" is per result as well). *)
+Theorem C14_one_call_per_module_per_event :
+  forall mods h j c1 c2,
+    names_distinct mods -> In c1 (calls_at mods h j) -> In c2 (calls_at mods h j) -> nc_module c1 = nc_module c2 -> c1 = c2.
+Proof. exact one_call_per_module_per_event. Qed.
+Print Assumptions C14_one_call_per_module_per_event.
 
 (* At most once per incident when send-once is set. *)
 Theorem C14_send_once_respected :
